@@ -30,11 +30,11 @@ type vxRunCfg struct {
 	NoEnable bool   `json:"noEnable,omitempty"`
 	OrigMode int    `json:"origMode"`
 	OrigPwm  int    `json:"origPwm"`
-	Stored   bool   `json:"stored"`  // RPM curve and PWM map already in the database
-	ConfMap  bool   `json:"confMap"` // pwmMap given in the configuration (no sweep)
+	Stored   bool   `json:"stored"`   // RPM curve and PWM map already in the database
+	ConfMap  bool   `json:"confMap"`  // pwmMap given in the configuration (no sweep)
 	Scenario string `json:"scenario"` // signal | stall
-	RpmSkew  int    `json:"rpmSkew"` // RPM polling rate = 1s + skew microseconds (tie order of coinciding timers)
-	Faults   bool   `json:"faults"`  // write faults are choice points
+	RpmSkew  int    `json:"rpmSkew"`  // RPM polling rate = 1s + skew microseconds (tie order of coinciding timers)
+	Faults   bool   `json:"faults"`   // write faults are choice points
 }
 
 func (c vxRunCfg) String() string {
